@@ -15,7 +15,7 @@
    clause "both contribute => bounded by the peer cap" needs the peer cap below
    2^62 ns, and
    C01_midpoint_refuted_beyond_2p62 shows that this is necessary. *)
-From ST Require Import Base.Ints Base.F64 Base.Sorting Model.NtpTime Model.Units Model.Ftm Model.Sync Proofs.SyncProofs Proofs.SyncDriftProofs.
+From ST Require Import Base.Ints Base.F64 Base.Sorting Model.NtpTime Model.Units Model.Ftm Model.Sync Model.SyncConfig Proofs.SyncProofs Proofs.SyncDriftProofs Proofs.SyncConfigProofs.
 From Coq Require Import ZArith List Reals.
 From Flocq Require Import Core.Core IEEE754.BinarySingleNaN.
 Import ListNotations.
@@ -50,7 +50,7 @@ Proof. exact nan_factor_refused. Qed.
 Print Assumptions C01_nan_factor_refused.
 
 (* infinite factors: a non-finite reference factor and a peer factor -Inf are inadmissible as well; the one
-   non-finite setting that is admitted is a peer factor +Inf, whose cap is +Inf (peer side unbounded by
+   non-finite setting that is accepted is a peer factor +Inf, whose cap is +Inf (peer side unbounded by
    configuration, reference side bounded by a finite factor) *)
 Theorem C01_infinite_factor_refused : forall cfg,
   is_finite (c_ref cfg) = false \/ c_peer cfg = B754_infinity true -> inadmissible cfg = true.
@@ -223,6 +223,40 @@ Theorem C01_bound_vs_exact_product : forall f drift_ns interval c,
   (IZR (Z.abs c) <= B2R f * (IZR (drift_ns * interval) / 1000000000) * (1 + / 562949953421312))%R.
 Proof. exact within_cap_exact_product. Qed.
 Print Assumptions C01_bound_vs_exact_product.
+
+(* The configuration path (timeservice.go clockDrift / syncConfig, Model/SyncConfig.v): the model satisfies the
+   configuration oracle for all six settings, present or omitted, of any float64 value *)
+Theorem C01_config_oracle : forall drift ref peer cutoff timeout interval,
+  let cfg := sync_config ref peer cutoff timeout interval in
+  match clock_drift drift with
+  | None => C01_config_ok drift ref peer cutoff timeout interval true 0 fzero fzero 0 0 0 = true
+  | Some d => C01_config_ok drift ref peer cutoff timeout interval false d (c_ref cfg) (c_peer cfg)
+                            (c_cutoff cfg) (c_timeout cfg) (c_interval cfg) = true
+  end.
+Proof. exact config_oracle. Qed.
+Print Assumptions C01_config_oracle.
+
+(* nothing configured: the defaults 1.25 / 2.5 / 50 us / 500 ms / 1 s, accepted by Run; the drift is UnknownDrift *)
+Theorem C01_config_defaults_admissible :
+  sync_config None None None None None = mkcfg default_ref default_peer 50000 500000000 1000000000 /\ inadmissible (sync_config None None None None None) = false /\ clock_drift None = Some 0.
+Proof. exact config_defaults. Qed.
+Print Assumptions C01_config_defaults_admissible.
+
+(* a NaN written into the configuration file - as a factor, as the interval or as the timeout - ends in a
+   configuration that Run refuses (a NaN cutoff becomes MinInt64 ns: every peer offset is beyond it, which does not
+   touch the bound) *)
+Theorem C01_config_nan_refused : forall ref peer cutoff timeout interval,
+  fis_nan (setting ref) = true \/ fis_nan (setting peer) = true \/ fis_nan (setting interval) = true \/ fis_nan (setting timeout) = true ->
+  inadmissible (sync_config ref peer cutoff timeout interval) = true.
+Proof. exact config_nan_refused. Qed.
+Print Assumptions C01_config_nan_refused.
+
+(* Observation: an omitted (or zero) clock_drift is clocks.UnknownDrift; Drift then reports MaxInt64 for every
+   interval (C01_unknown_drift_is_maxint), both caps exceed the int64 range and nothing is ever clamped: with the
+   drift left unconfigured the bound of C01 is void by configuration ("drift > 0" is part of the quantifier). *)
+Theorem C01_config_unknown_drift : forall d, clock_drift None = Some 0 /\ sysclk_drift 0 d = max_i64.
+Proof. exact config_unknown_drift. Qed.
+Print Assumptions C01_config_unknown_drift.
 
 (* Boundary observation: with a drift allowance of 3e18 ns per round (95 years) and the default factors the
    two bounded values are further apart than 2^63, Midpoint wraps and the correction leaves the peer cap. *)
